@@ -66,16 +66,16 @@ type Ctx struct {
 	Progs    []*load.Program
 	Only     string // restrict reporting to one key (replay)
 
-	cur     *load.Program
-	obs     map[string]*Obligation
-	order   []string
-	floors  map[string]int
-	info    map[string]interface{}
-	assume  []string
-	hard    []string // hard failures (anchor unresolved, panic …)
-	explain string
+	cur                 *load.Program
+	obs                 map[string]*Obligation
+	order               []string
+	floors              map[string]int
+	info                map[string]interface{}
+	assume              []string
+	hard                []string // hard failures (anchor unresolved, panic …)
+	explain             string
 	fixFired, fixSilent int
-	ruleDocs map[string]string
+	ruleDocs            map[string]string
 }
 
 // NewCtx creates a context.
